@@ -86,6 +86,12 @@ impl Problem {
             "tan" => d[0] = 1.0 + y[0] * y[0],
             "signc" => d[0] = if t < p { -1.0 } else { 1.0 },
             "cube" => d[0] = -y[0] * y[0] * y[0],
+            // stiff relaxation towards cos t with rate p
+            "relax" => d[0] = -p * (y[0] - t.cos()),
+            // -y until t = p, then the very stiff -1e4 y^3
+            "switch3" => d[0] = if t < p { -y[0] } else { -1.0e4 * y[0] * y[0] * y[0] },
+            // leaves the domain of the right-hand side at t = 2 (y reaches 0): NaN afterwards
+            "sqrtneg" => d[0] = -y[0].sqrt(),
             "robertson" => {
                 d[0] = -0.04 * y[0] + 1.0e4 * y[1] * y[2];
                 d[1] = 0.04 * y[0] - 1.0e4 * y[1] * y[2] - 3.0e7 * y[1] * y[1];
@@ -143,6 +149,9 @@ impl Problem {
             "blow2" => j[0] = 2.0 * y[0],
             "tan" => j[0] = 2.0 * y[0],
             "cube" => j[0] = -3.0 * y[0] * y[0],
+            "relax" => j[0] = -p,
+            "switch3" => j[0] = if _t < p { -1.0 } else { -3.0e4 * y[0] * y[0] },
+            "sqrtneg" => j[0] = -0.5 / y[0].sqrt(),
             "robertson" => {
                 j[0] = -0.04;
                 j[1] = 1.0e4 * y[2];
